@@ -343,6 +343,7 @@ func MW[K comparable, V any](m map[K]V, pos string) map[K]V {
 
 // AtomicPtr records a sync/atomic operation on *p and returns p.
 func AtomicPtr[T any](p *T, store bool, pos string) *T {
+	YieldFine("atomic")
 	Atomic(unsafe.Pointer(p), store, pos)
 
 	return p
@@ -432,6 +433,13 @@ func ReadAllP[T any](p *T, pos string) *T {
 	if p != nil {
 		ReadAll(p, pos)
 	}
+
+	return p
+}
+
+// AtomicYield makes a sync/atomic operation a fine-grained yield point and returns p.
+func AtomicYield[T any](p *T) *T {
+	YieldFine("atomic")
 
 	return p
 }
